@@ -195,7 +195,24 @@ class AsyncRig(_Base):
         self.world.loop.run_until_complete(asyncio.sleep(dt))
 
     def _wire(self):
-        return [d for (_, d, _) in self.tr.sent]
+        return [d for (_, d, _) in self.tr.sent][getattr(self, "_w0", 0):]
+
+    def restart(self, start, length, after_success=False):
+        """a NEW get() on the same structure and protocol object (the caller has re-based `old_block`)"""
+        from geckolib.driver import GeckoStatusBlockProtocolHandler
+        if not self.task.done():
+            raise env.MachineryError("restart: the previous transfer is still running")
+        self.start, self.length = start, length
+        self.bag, self.log, self._seen = [], [], 0
+        self._w0 = len(self.tr.sent)
+
+        def mk():
+            return GeckoStatusBlockProtocolHandler.request(
+                self.proto.get_and_increment_sequence_counter(False), start, length, parms=self.parms)
+
+        self.task = self.world.loop.create_task(self.struct.get(self.proto, mk, self.R), name="GV:get")
+        self.advance(0.001)
+        self.collect()
 
     def _deliver(self, framed):
         m, content, parms = self._decode_v(framed)
@@ -292,13 +309,17 @@ class SyncRig(_Base):
     def ok(self):
         return self.done() and self.struct.had_at_least_one_block
 
-    def restart(self, start, length):
+    def restart(self, start, length, after_success=False):
         """a NEW transfer on the same structure and socket, after the previous one has FAILED (the client's copy is
-        untouched, so the log of the new transfer starts from the same old block)"""
+        untouched, so the log of the new transfer starts from the same old block) - or, with after_success, after it
+        has succeeded and the caller has re-based `old_block` on what the client holds now"""
         from geckolib.driver import GeckoStatusBlockProtocolHandler
         from geckolib.config import GeckoConfig
-        if self.ok():
+        if self.ok() and not after_success:
             raise env.MachineryError("restart: the previous transfer has not failed")
+        if after_success:
+            # (the flag is sticky; cleared by the harness so that it tells whether THIS transfer completed)
+            self.struct.had_at_least_one_block = False
         self.start, self.length = start, length
         self.bag, self.log, self._seen = [], [], 0
         self._w0 = len(self.ms.wire)
